@@ -436,3 +436,55 @@ fn d14_chunk_boundary_inside_script_does_not_change_the_output() {
     parts.extend(f.end(None));
     assert_eq!(String::from_utf8_lossy(&whole), String::from_utf8_lossy(&parts));
 }
+
+/// D17 (C19, R19.3): explain / impact compute the status with the example's response code first,
+/// while the live pipeline (and test_examples) decide at request time first.
+#[test]
+fn d17_explain_reports_the_status_the_live_pipeline_produces() {
+    use redirectionio::api::{ExplainRequestInput, ExplainRequestOutput};
+    let r = r#"{"id":"r1","rank":1,"source":{"path":"/a"},"target":"/b","status_code":301,"redirect_unit_id":"u1","target_hash":"th"}"#;
+    let sin: ExplainRequestInput = serde_json::from_str(&format!(
+        r#"{{"router_config":{{}},"example":{{"url":"/a","must_match":true,"response_status_code":404}},"rules":[{}],"max_hops":2}}"#,
+        r
+    ))
+    .unwrap();
+    let o = ExplainRequestOutput::create_result_without_project(sin).ok().unwrap();
+    let v = serde_json::to_value(&o).unwrap();
+    // live pipeline
+    let cfg: RouterConfig = serde_json::from_str("{}").unwrap();
+    let mut router = Router::<Rule>::from_config(cfg.clone());
+    router.insert(rule(r));
+    let q = req(&cfg, "/a", None, None);
+    let mut action = Action::from_routes_rule(router.match_request(&q), &q, None);
+    let live = action.get_status_code(0, None);
+    assert_eq!(live, 301);
+    assert_eq!(v["response"]["status_code"], serde_json::json!(live), "explain output: {}", v["response"]);
+}
+
+/// D12 (C19, R19.5) — known finding: batch_remove never updates the layers' counts, so after a
+/// change-set the `count` fields of the explain trace differ from those of a router built from scratch.
+#[test]
+fn d12_trace_counts_after_a_change_set_equal_those_of_a_rebuild() {
+    use redirectionio::api::{ExplainRequestInput, ExplainRequestOutput, ExplainRequestProjectInput};
+    let cfg = RouterConfig::default();
+    let r1 = r#"{"id":"r1","rank":1,"source":{"path":"/a","methods":["GET"]}}"#;
+    let r2 = r#"{"id":"r2","rank":1,"source":{"path":"/b","methods":["GET"]}}"#;
+    let mut router = Router::<Rule>::from_config(cfg.clone());
+    router.insert(rule(r1));
+    router.insert(rule(r2));
+    let pin: ExplainRequestProjectInput = serde_json::from_str(
+        r#"{"example":{"url":"/b","must_match":true},"change_set":{"added":[],"updated":[],"deleted":["r1"]},"max_hops":2}"#,
+    )
+    .unwrap();
+    let inc = ExplainRequestOutput::create_result_from_project(pin, std::sync::Arc::new(router)).ok().unwrap();
+    let sin: ExplainRequestInput = serde_json::from_str(&format!(
+        r#"{{"router_config":{},"example":{{"url":"/b","must_match":true}},"rules":[{}],"max_hops":2}}"#,
+        serde_json::to_string(&cfg).unwrap(),
+        r2
+    ))
+    .unwrap();
+    let scr = ExplainRequestOutput::create_result_without_project(sin).ok().unwrap();
+    let a = serde_json::to_value(&inc).unwrap();
+    let b = serde_json::to_value(&scr).unwrap();
+    assert_eq!(a["match_traces"], b["match_traces"]);
+}
